@@ -14,7 +14,7 @@ theorem ctxP_ite {c1 c2 c3 c4 c5 c6 : List LItem} (h1 : CtxP c1) (h2 : CtxP c2) 
   ((((h1.append h2).append h3).append h4).append h5).append h6
 
 theorem iteOf_w {c : LCtx} {rb rA re rB : List Nat} {db dA de dB : List String} (neg : Bool) (hdrs : List Hdr) (hh : HdrsOK hdrs)
-    {body els : M (List LItem)} {elifsA : M (List ElifA)} (hasElse : Bool) {elifsB : List ElifA → M (List Blk)} {k : Nat}
+    {body els : M (List LItem)} {elifsA : M (List ElifA)} (hasElse : Bool) {elifsB : List ElifA → M (List Blk)} {k : List Bool}
     (hm : WM c rb db body) (hE : WM c re de (elsePartOf hasElse els)) (hA : EAS k c rA dA elifsA) (hB : EBS k c rB dB elifsB) :
     WM c (rb ++ rA ++ re ++ rB) (db ++ dA ++ de ++ dB) (iteOf neg hdrs body elifsA hasElse els elifsB) := by
   intro s items s' hs h
